@@ -74,6 +74,7 @@ def run_range(meta, V, rng, cov):
     r = airq.run_jobs([{"kind": "transition", "name": "range", "cur": {}, "next": {}, "per": {}}], "c04_range")[0]
     idx = roots_touching(meta, r, c["RANGE_M"], c["RANGE_V"] + 1)
     ctx = FieldCtx()
+    ctx.expand_limit = 0  # the 9-factor product only needs the no-zero-divisor axiom
     roots = load_dag(ctx, r["arena"], [r["roots"][i] for i in idx])
     v, vn = ctx.var(f"c{c['RANGE_V']}"), ctx.var(f"n{c['RANGE_V']}")
     assume = [ctx.is_zero(x) for x in roots]
